@@ -40,7 +40,7 @@ namespace {
 
 const int MAXT = 128, MAXM = 256, MAXC = 256, MAXS = 256;
 enum TState { T_UNUSED = 0, T_RUNNABLE, T_BLOCKED, T_FINISHED };
-enum Wait { W_NONE = 0, W_MUTEX, W_COND, W_SEM, W_JOIN, W_SLEEP, W_ALL };
+enum Wait { W_NONE = 0, W_MUTEX, W_COND, W_SEM, W_JOIN, W_SLEEP, W_ALL, W_KEY };
 
 struct T {
   int state = T_UNUSED;
@@ -96,7 +96,7 @@ S* findS(const void* a) {
 void describe(char* out, size_t n) {
   size_t o = 0;
   for (int i = 0; i < nth && o + 80 < n; ++i) {
-    const char* w = th[i].wait == W_MUTEX ? "mutex" : th[i].wait == W_COND ? "condition" : th[i].wait == W_SEM ? "semaphore" : th[i].wait == W_JOIN ? "join" : th[i].wait == W_SLEEP ? "sleep" : th[i].wait == W_ALL ? "end-of-run" : "-";
+    const char* w = th[i].wait == W_MUTEX ? "mutex" : th[i].wait == W_COND ? "condition" : th[i].wait == W_SEM ? "semaphore" : th[i].wait == W_JOIN ? "join" : th[i].wait == W_SLEEP ? "sleep" : th[i].wait == W_ALL ? "end-of-run" : th[i].wait == W_KEY ? "io" : "-";
     if (th[i].state == T_BLOCKED && getenv("VSCHED_DEBUG")) o += (size_t)snprintf(out + o, n - o, "[obj %p] ", th[i].obj);
     o += (size_t)snprintf(out + o, n - o, "T%d:%s%s%s ", i, th[i].state == T_RUNNABLE ? "runnable" : th[i].state == T_BLOCKED ? "blocked on " : th[i].state == T_FINISHED ? "finished" : "?", th[i].state == T_BLOCKED ? w : "", th[i].deadline >= 0 ? "(timed)" : "");
   }
@@ -247,6 +247,20 @@ int condWait(pthread_cond_t* c, pthread_mutex_t* mu, const struct timespec* abs)
 
 }  // namespace
 
+// generic blocking for interposed I/O calls (vsched/rt_io.cpp): wait until wakeAll(key) or until the time-out passes
+bool blockOn(const void* key, long long timeoutNs) {
+  if (!g_active || tl_id < 0) return true;
+  int me = tl_id;
+  th[me].state = T_BLOCKED; th[me].wait = W_KEY; th[me].obj = key; th[me].timedOut = false; th[me].deadline = timeoutNs >= 0 ? vclock + timeoutNs : -1;
+  blockHere();
+  th[me].wait = W_NONE; th[me].deadline = -1;
+  bool to = th[me].timedOut; th[me].timedOut = false; progress();
+  return !to;
+}
+void wakeAll(const void* key) {
+  if (!g_active) return;
+  for (int i = 0; i < nth; ++i) if (th[i].state == T_BLOCKED && th[i].wait == W_KEY && th[i].obj == key) { th[i].state = T_RUNNABLE; th[i].deadline = -1; }
+}
 bool active() { return g_active; }
 int self() { return tl_id; }
 long long nowNs() { return vclock; }
